@@ -40,10 +40,44 @@ func whoMayCall(r *Report, rule, callee string, allowed ...string) {
 		}
 		for _, s := range sites {
 			n++
-			r.ObSite(rule, s, "caller-of:"+callee, al[caller], callee+" may only be called from "+strings.Join(allowed, ", ")+"; called from "+caller)
+			okc := al[caller] || helperOnlyCalledFrom(r.P, r.P.Fn(caller), al, 3)
+			r.ObSite(rule, s, "caller-of:"+callee, okc, callee+" may only be called from "+strings.Join(allowed, ", ")+" (or from an unexported helper that only they call, synchronously); called from "+caller)
 		}
 	}
 	r.Anchor(rule, "call sites of "+callee, n >= 1)
+}
+
+// helperOnlyCalledFrom: fn is an unexported function of the module that is never used as a value
+// or started as a goroutine and whose every call site lies in an allowed function (or in another
+// such helper): code extracted from an allowed caller stays an allowed caller.
+func helperOnlyCalledFrom(p *Prog, fn *ssa.Function, al map[string]bool, depth int) bool {
+	if fn == nil || depth == 0 || fn.Blocks == nil || isExportedName(fn.Name()) || fn.Parent() != nil {
+		return false
+	}
+	n := 0
+	for _, g := range p.ModuleFuncs() {
+		for _, b := range g.Blocks {
+			for _, in := range b.Instrs {
+				var ops [8]*ssa.Value
+				for _, op := range in.Operands(ops[:0]) {
+					if f, ok := (*op).(*ssa.Function); ok && f == fn {
+						c, isCall := in.(*ssa.Call)
+						if !isCall || c.Call.Value != ssa.Value(fn) {
+							return false // go/defer statement, method value, stored or passed as a value
+						}
+					}
+				}
+				if c, ok := in.(*ssa.Call); ok && c.Call.StaticCallee() == fn {
+					n++
+					cn := FuncName(TopFunc(g))
+					if !al[cn] && !helperOnlyCalledFrom(p, p.Fn(cn), al, depth-1) {
+						return false
+					}
+				}
+			}
+		}
+	}
+	return n > 0
 }
 
 func runC06(r *Report) {
@@ -646,25 +680,45 @@ func runC09(r *Report) {
 			r.ObSite("R09c", s, "waiters-woken-outside-lock", len(held) == 0, "the flight's channel is closed after the store lock was released; held: "+setString(held))
 			// the channel closed is the entry's channel taken under the pending guard
 			ch := s.Call().Common().Args[0]
-			pendingOnly := true
-			if ph, ok := ch.(*ssa.Phi); ok {
-				for k, e := range ph.Edges {
-					if IsNilConst(e) {
-						continue
+			var pendingEdges func(v ssa.Value, depth int) bool
+			pendingEdges = func(v ssa.Value, depth int) bool {
+				switch x := v.(type) {
+				case *ssa.Phi:
+					for k, e := range x.Edges {
+						if IsNilConst(e) {
+							continue
+						}
+						if _, isphi := e.(*ssa.Phi); isphi {
+							continue
+						}
+						pred := x.Block().Preds[k]
+						src := pred
+						if in, isin := e.(ssa.Instruction); isin {
+							src = in.Block()
+						}
+						if !Guarded(src, func(g Guard) bool { pend, is := isTypZero(g); return is && pend }) {
+							return false
+						}
 					}
-					if _, isphi := e.(*ssa.Phi); isphi {
-						continue
+				case *ssa.Call:
+					// the channel is handed back by an unexported helper of the store (called under the lock)
+					callee := x.Call.StaticCallee()
+					if depth == 0 || callee == nil || callee.Blocks == nil || isExportedName(callee.Name()) || !strings.HasPrefix(FuncName(callee), "rueidis.(*lru).") {
+						return false
 					}
-					pred := ph.Block().Preds[k]
-					src := pred
-					if in, isin := e.(ssa.Instruction); isin {
-						src = in.Block()
-					}
-					if !Guarded(src, func(g Guard) bool { pend, is := isTypZero(g); return is && pend }) {
-						pendingOnly = false
+					for _, b := range callee.Blocks {
+						if ret, isret := b.Instrs[len(b.Instrs)-1].(*ssa.Return); isret && b.Comment != "recover" {
+							for _, rv := range RetVals(ret) {
+								if shortType(rv.Type()) == shortType(x.Type()) && !IsNilConst(rv) && !pendingEdges(rv, depth-1) {
+									return false
+								}
+							}
+						}
 					}
 				}
+				return true
 			}
+			pendingOnly := pendingEdges(ch, 2)
 			nonNil := Guarded(s.Block, func(g Guard) bool {
 				x, op, y, ok := CmpGuard(g)
 				return ok && op == token.NEQ && IsNilConst(y) && x == ch
@@ -673,13 +727,25 @@ func runC09(r *Report) {
 		}
 	}
 	if fn := r.FnAnchor("R09c", "rueidis.(*lru).Cancel"); fn != nil {
-		rem := len(CallSites(fn, listRemove)) == 1 && len(CallSites(fn, "builtin.delete")) >= 1
-		errSet := false
-		for _, a := range FieldAccessesIn(fn, "rueidis.cacheEntry", "err") {
-			if a.Write {
-				errSet = true
+		// Cancel and the unexported helpers only it calls
+		fns := []*ssa.Function{fn}
+		for _, g := range r.P.Funcs("rueidis.(*lru).") {
+			if g != fn && helperOnlyCalledFrom(r.P, g, map[string]bool{"rueidis.(*lru).Cancel": true}, 2) {
+				fns = append(fns, g)
 			}
 		}
+		nRem, nDel := 0, 0
+		errSet := false
+		for _, g := range fns {
+			nRem += len(CallSites(g, listRemove))
+			nDel += len(CallSites(g, "builtin.delete"))
+			for _, a := range FieldAccessesIn(g, "rueidis.cacheEntry", "err") {
+				if a.Write {
+					errSet = true
+				}
+			}
+		}
+		rem := nRem == 1 && nDel >= 1
 		r.Ob("R09c", fn, "cancel-removes-and-reports", fn.Pos(), rem && errSet, "Cancel records the error on the entry and removes it from the index and the list, so a later call fetches again")
 	}
 	for _, name := range []string{"rueidis.(*adapter).Update", "rueidis.(*adapter).Cancel"} {
